@@ -130,6 +130,60 @@ def sleepsOf : List Ev → List Rat
 def Run.calls (r : Run) : Nat := nCalls r.trace
 def Run.sleeps (r : Run) : List Rat := sleepsOf r.trace
 
+/-! ### what a successful invocation hands back
+
+`guarded` does `return target(*args, **kwargs)`: the result object is handed back without being looked at.  Store
+operations legitimately return objects that are *falsy* in Python: `HeadApiResponse(False)` (`exists` /
+`template_exists` for a resource that is not there), `ObjectApiResponse({})` (empty body: `refresh` on some clusters,
+`get_index` for a pattern that matches nothing), and a scripted target may return `None`, `False`, `0`, `{}`, `[]`, `""`.
+The tag of `Outcome.success` carries both the attempt that produced the object and which kind of object it is. -/
+
+inductive Value
+  | object        -- an opaque truthy object
+  | headTrue      -- HeadApiResponse(True)
+  | headFalse     -- HeadApiResponse(False)            (falsy)
+  | emptyBody     -- ObjectApiResponse({})             (falsy)
+  | body          -- ObjectApiResponse({…non-empty…})
+  | bulkTuple     -- (n, []) of elasticsearch.helpers.bulk
+  | pyNone | pyFalse | pyZero | emptyDict | emptyList | emptyStr   -- (all falsy)
+deriving Repr, DecidableEq
+
+/-- Python truthiness of the result (`bool(result)`) — what the loop must NOT depend on -/
+def Value.truthy : Value → Bool
+  | .object => true
+  | .headTrue => true
+  | .body => true
+  | .bulkTuple => true
+  | _ => false
+
+def nValues : Nat := 12
+
+def Value.code : Value → Nat
+  | .object => 0 | .headTrue => 1 | .headFalse => 2 | .emptyBody => 3 | .body => 4 | .bulkTuple => 5
+  | .pyNone => 6 | .pyFalse => 7 | .pyZero => 8 | .emptyDict => 9 | .emptyList => 10 | .emptyStr => 11
+
+def Value.ofCode : Nat → Value
+  | 1 => .headTrue | 2 => .headFalse | 3 => .emptyBody | 4 => .body | 5 => .bulkTuple
+  | 6 => .pyNone | 7 => .pyFalse | 8 => .pyZero | 9 => .emptyDict | 10 => .emptyList | 11 => .emptyStr
+  | _ => .object
+
+/-- identity of the object returned by attempt `attempt` (0-based script position) being a `v` -/
+def resultTag (attempt : Nat) (v : Value) : Nat := attempt * nValues + v.code
+def tagAttempt (t : Nat) : Nat := t / nValues
+def tagValue (t : Nat) : Value := Value.ofCode (t % nValues)
+
+/-- the invocation at script position `attempt` does not raise and returns a `v` -/
+def succeeds (attempt : Nat) (v : Value) : Outcome := .success (resultTag attempt v)
+
+/-- replace the objects the successful invocations return (everything else unchanged) -/
+def retag (f : Nat → Nat) : Outcome → Outcome
+  | .success t => .success (f t)
+  | o => o
+
+def retagRes (f : Nat → Nat) : Res → Res
+  | .returned t => .returned (f t)
+  | r => r
+
 /-! ### `EsMetricsStore`: documents are buffered by `put_*` and sent by `flush()` / `close()`
 
 State carried between calls on one store object: `_docs` (the buffer).  `flush(refresh)`:
@@ -196,6 +250,56 @@ def runStore (rnd : Nat → Rat) : Store → List StoreStep → Store × List St
     (s2, r :: rs)
 
 def emptyStore : Store := ⟨[], [], 0, 0⟩
+
+/-! ### `EsMetricsStore.open()`: which store operations it issues, driven by the (truthy / falsy) results of earlier ones
+
+`open(create=True)`: `_ensure_index_template()` (`template_exists`; if truthy `get_template` and compare; `put_template` when there
+is no template, or it differs and `datastore.overwrite_existing_templates` is set), then `exists(index)`; `create_index` iff the
+answer is falsy; then `refresh`.  `open(create=False)`: `exists(<index>.new)` (truthy → use that name), then `refresh`.
+Every operation is one guarded call with its own fault script; the first one that raises ends `open`. -/
+
+inductive StoreOp
+  | templateExists | getTemplate | putTemplate
+  | existsIndex (migrated : Bool)     -- `exists(index)` / `exists(index + ".new")`
+  | createIndex
+  | refresh (migrated : Bool)
+deriving Repr, DecidableEq
+
+structure Cluster where
+  /-- `none`: no template "rally-metrics" (HEAD answers 404 → falsy); `some none`: it exists but the listing is empty;
+      `some (some same)`: listed, and its body is identical to Rally's (`same`) or not -/
+  template : Option (Option Bool)
+  /-- `datastore.overwrite_existing_templates` -/
+  overwrite : Bool
+  /-- the index `open` looks for exists (create: this month's index; otherwise `<index>.new`) -/
+  index : Bool
+deriving Repr, DecidableEq
+
+/-- the operations of `open` in order when no call raises -/
+def openPlan (create : Bool) (c : Cluster) : List StoreOp :=
+  if create then
+    [StoreOp.templateExists] ++
+    (match c.template with
+      | none => [.putTemplate]
+      | some none => [.getTemplate, .putTemplate]
+      | some (some same) => [StoreOp.getTemplate] ++ (if same then [] else if c.overwrite then [.putTemplate] else [])) ++
+    [StoreOp.existsIndex false] ++ (if c.index then [] else [.createIndex]) ++ [StoreOp.refresh false]
+  else
+    [.existsIndex true, .refresh c.index]
+
+/-- the operations one after the other, each a guarded call (scripted faults, then an answer); the first that raises ends it -/
+def runOps (rnd : Nat → Rat) (draws : Nat) : List StoreOp → List (List Outcome) → List (StoreOp × Run) × Option Res
+  | [], _ => ([], none)
+  | op :: ops, scripts =>
+    if isReturned (callThenSucceed rnd draws (scripts.headD [])).res then
+      ((op, callThenSucceed rnd draws (scripts.headD [])) ::
+          (runOps rnd (draws + (callThenSucceed rnd draws (scripts.headD [])).calls) ops scripts.tail).1,
+        (runOps rnd (draws + (callThenSucceed rnd draws (scripts.headD [])).calls) ops scripts.tail).2)
+    else ([(op, callThenSucceed rnd draws (scripts.headD []))], some (callThenSucceed rnd draws (scripts.headD [])).res)
+
+def openStore (rnd : Nat → Rat) (create : Bool) (c : Cluster) (scripts : List (List Outcome)) :
+    List (StoreOp × Run) × Option Res :=
+  runOps rnd 0 (openPlan create c) scripts
 
 /-! ### one level below `EsClient`: `RallySyncElasticsearch.perform_request` (esrally/client/synchronous.py)
 
